@@ -398,6 +398,8 @@ class Exec:
             return self.uf(name + "/" + str(len(args)), *([Val] * len(args) + [Val]))(*args)
         if v is None:
             return z3.Const("uninit", Val)
+        if hasattr(v, "as_val"):
+            return v.as_val(self, st)         # value classes of client kernels (e.g. printkern.Txt)
         raise Unsupported(f"to_val of {type(v)}")
 
     def canon_fn(self, text):
